@@ -152,6 +152,8 @@ class VirtualClock:
         self.slice_script = list(slice_script) if slice_script is not None else None
         self.horizon_hit = False
         self.sites: Dict[str, int] = {}
+        self.stream: List[Tuple] = []  # work packets seen at the slice decision points
+        self.record_stream = False
 
     def time(self) -> float:
         self.calls += 1
@@ -165,6 +167,11 @@ class VirtualClock:
         if name == "_expand_classes_for":
             if "expansion_start" in frame.f_locals:
                 self.packets += 1
+                if self.record_stream:
+                    loc = frame.f_locals
+                    self.stream.append(
+                        (loc.get("label"), tuple(repr(x) for x in (loc.get("strategies") or ())), loc.get("inferral"))
+                    )
                 if self.interrupt_at is not None and self.packets == self.interrupt_at:
                     self.now += self.BIG  # also trips max_expansion_time
                     return self.now
